@@ -1,6 +1,8 @@
-// AttrMap (src/types.rs) as an opaque map from names to values. ASSUMED contracts: the real
-// methods use iterator adapters with closures (iter_mut().find, position, sort_by_key) that Verus
-// cannot translate; the view forgets the attribute ORDER (reorder() is not modelled).
+// AttrMap (src/types.rs) as an opaque map from names to values. These contracts are what U-attrmap
+// (units/attrmap.rs) PROVES on the real method bodies for every AttrMap built by new() and the
+// mutators (names pairwise distinct is the data invariant; std's position / find / sort_by_key are
+// the assumptions listed there). Here they are restated over an opaque type so that client units
+// need not carry the invariant; the view forgets the attribute ORDER (reorder() only permutes).
 pub trait AsStrView { spec fn sv(&self) -> Seq<char>; }
 impl<'a> AsStrView for &'a str { open spec fn sv(&self) -> Seq<char> { self@ } }
 impl AsStrView for String { open spec fn sv(&self) -> Seq<char> { self@ } }
